@@ -9,6 +9,7 @@ import (
 	"time"
 
 	z "github.com/Oudwins/zog"
+	"github.com/Oudwins/zog/conf"
 )
 
 // ---------------------------------------------------------------------------
@@ -191,6 +192,9 @@ func TypeOf(n *Node) reflect.Type { return typeOf(n, false) }
 func typeOf(n *Node, rev bool) reflect.Type {
 	switch n.Kind {
 	case "string":
+		if n.W == "named" {
+			return reflect.TypeOf(NamedStr(""))
+		}
 		return reflect.TypeOf("")
 	case "int":
 		if n.W == "64" {
@@ -726,133 +730,159 @@ func (e *Engine) coercerOpts(n *Node) []z.SchemaOption {
 	})}
 }
 
+// NamedStr is a user-defined string type: schemas over it are built as the documentation shows (custom-schemas.md):
+// &z.StringSchema[NamedStr]{} with a coercer that converts what the default string coercer returns.
+type NamedStr string
+
+func valStringsAs[T ~string](l []Val) []T {
+	out := make([]T, len(l))
+	for i := range l {
+		out[i] = T(l[i].S)
+	}
+	return out
+}
+
+func buildStr[T ~string](e *Engine, n *Node, s *z.StringSchema[T]) z.ZogSchema {
+	if n.Req {
+		s.Required(reqOpts(n)...)
+	} else if n.OptCall {
+		s.Required().Optional() // the later call counts
+	}
+	if n.Def != nil {
+		s.Default(T(n.Def.S))
+	}
+	if n.Catch != nil {
+		s.Catch(T(n.Catch.S))
+	}
+	for i, t := range n.Tests {
+		o := testOpts(t)
+		if t.T == "custom" {
+			if t.TFunc {
+				s.Test(e.tfuncTest(n, i, t))
+			} else if t.Reusable && t.Edited {
+				// a library of reusable tests: built once without options, then a copy is given its own code,
+				// message, params and path before it is attached - the copy's fields are the test's fields
+				base := z.TestFunc("base_of_"+t.Code, e.customFn(n, i, t, false), z.Message("BASE MESSAGE"))
+				cp := base
+				cp.IssueCode, cp.IssueFmtFunc = t.Code, nil
+				for _, opt := range o {
+					opt(&cp)
+				}
+				s.Test(cp)
+			} else if t.Reusable {
+				s.Test(z.TestFunc(t.Code, e.customFn(n, i, t, false), o...))
+			} else {
+				s.TestFunc(e.customFn(n, i, t, false), o...)
+			}
+			continue
+		}
+		var ns z.NotStringSchema[T]
+		if t.Not {
+			ns = s.Not()
+		}
+		switch t.T {
+		case "min":
+			s.Min(int(t.N), o...)
+		case "max":
+			s.Max(int(t.N), o...)
+		case "len":
+			if t.Not {
+				ns.Len(int(t.N), o...)
+			} else {
+				s.Len(int(t.N), o...)
+			}
+		case "oneof":
+			if t.Not {
+				ns.OneOf(e.own("oneof", n, valStringsAs[T](t.L)).([]T), o...)
+			} else {
+				s.OneOf(e.own("oneof", n, valStringsAs[T](t.L)).([]T), o...)
+			}
+		case "contains":
+			if t.Not {
+				ns.Contains(T(t.S), o...)
+			} else {
+				s.Contains(T(t.S), o...)
+			}
+		case "prefix":
+			if t.Not {
+				ns.HasPrefix(T(t.S), o...)
+			} else {
+				s.HasPrefix(T(t.S), o...)
+			}
+		case "suffix":
+			if t.Not {
+				ns.HasSuffix(T(t.S), o...)
+			} else {
+				s.HasSuffix(T(t.S), o...)
+			}
+		case "upper":
+			if t.Not {
+				ns.ContainsUpper(o...)
+			} else {
+				s.ContainsUpper(o...)
+			}
+		case "digit":
+			if t.Not {
+				ns.ContainsDigit(o...)
+			} else {
+				s.ContainsDigit(o...)
+			}
+		case "special":
+			if t.Not {
+				ns.ContainsSpecial(o...)
+			} else {
+				s.ContainsSpecial(o...)
+			}
+		case "email":
+			if t.Not {
+				ns.Email(o...)
+			} else {
+				s.Email(o...)
+			}
+		case "url":
+			if t.Not {
+				ns.URL(o...)
+			} else {
+				s.URL(o...)
+			}
+		case "uuid":
+			if t.Not {
+				ns.UUID(o...)
+			} else {
+				s.UUID(o...)
+			}
+		case "match":
+			if t.Not {
+				ns.Match(regexp.MustCompile(t.S), o...)
+			} else {
+				s.Match(regexp.MustCompile(t.S), o...)
+			}
+		default:
+			panic("harness: bad string test " + t.T)
+		}
+	}
+	for i, p := range n.PTs {
+		s.PostTransform(e.postTransform(n, i, p))
+	}
+	return s
+}
+
 // Build constructs the zog schema for n. Every callback is harness code.
 func (e *Engine) Build(n *Node) z.ZogSchema {
 	switch n.Kind {
 	case "string":
-		s := z.String(e.coercerOpts(n)...)
-		if n.Req {
-			s.Required(reqOpts(n)...)
-		} else if n.OptCall {
-			s.Required().Optional() // the later call counts
+		if n.W == "named" {
+			s := &z.StringSchema[NamedStr]{}
+			z.WithCoercer(func(x any) (any, error) {
+				v, err := conf.DefaultCoercers.String(x)
+				if err != nil {
+					return nil, err
+				}
+				return NamedStr(v.(string)), nil
+			})(s)
+			return buildStr(e, n, s)
 		}
-		if n.Def != nil {
-			s.Default(n.Def.S)
-		}
-		if n.Catch != nil {
-			s.Catch(n.Catch.S)
-		}
-		for i, t := range n.Tests {
-			o := testOpts(t)
-			if t.T == "custom" {
-				if t.TFunc {
-					s.Test(e.tfuncTest(n, i, t))
-				} else if t.Reusable && t.Edited {
-					// a library of reusable tests: built once without options, then a copy is given its own code,
-					// message, params and path before it is attached - the copy's fields are the test's fields
-					base := z.TestFunc("base_of_"+t.Code, e.customFn(n, i, t, false), z.Message("BASE MESSAGE"))
-					cp := base
-					cp.IssueCode, cp.IssueFmtFunc = t.Code, nil
-					for _, opt := range o {
-						opt(&cp)
-					}
-					s.Test(cp)
-				} else if t.Reusable {
-					s.Test(z.TestFunc(t.Code, e.customFn(n, i, t, false), o...))
-				} else {
-					s.TestFunc(e.customFn(n, i, t, false), o...)
-				}
-				continue
-			}
-			var ns z.NotStringSchema[string]
-			if t.Not {
-				ns = s.Not()
-			}
-			switch t.T {
-			case "min":
-				s.Min(int(t.N), o...)
-			case "max":
-				s.Max(int(t.N), o...)
-			case "len":
-				if t.Not {
-					ns.Len(int(t.N), o...)
-				} else {
-					s.Len(int(t.N), o...)
-				}
-			case "oneof":
-				if t.Not {
-					ns.OneOf(e.own("oneof", n, valStrings(t.L)).([]string), o...)
-				} else {
-					s.OneOf(e.own("oneof", n, valStrings(t.L)).([]string), o...)
-				}
-			case "contains":
-				if t.Not {
-					ns.Contains(t.S, o...)
-				} else {
-					s.Contains(t.S, o...)
-				}
-			case "prefix":
-				if t.Not {
-					ns.HasPrefix(t.S, o...)
-				} else {
-					s.HasPrefix(t.S, o...)
-				}
-			case "suffix":
-				if t.Not {
-					ns.HasSuffix(t.S, o...)
-				} else {
-					s.HasSuffix(t.S, o...)
-				}
-			case "upper":
-				if t.Not {
-					ns.ContainsUpper(o...)
-				} else {
-					s.ContainsUpper(o...)
-				}
-			case "digit":
-				if t.Not {
-					ns.ContainsDigit(o...)
-				} else {
-					s.ContainsDigit(o...)
-				}
-			case "special":
-				if t.Not {
-					ns.ContainsSpecial(o...)
-				} else {
-					s.ContainsSpecial(o...)
-				}
-			case "email":
-				if t.Not {
-					ns.Email(o...)
-				} else {
-					s.Email(o...)
-				}
-			case "url":
-				if t.Not {
-					ns.URL(o...)
-				} else {
-					s.URL(o...)
-				}
-			case "uuid":
-				if t.Not {
-					ns.UUID(o...)
-				} else {
-					s.UUID(o...)
-				}
-			case "match":
-				if t.Not {
-					ns.Match(regexp.MustCompile(t.S), o...)
-				} else {
-					s.Match(regexp.MustCompile(t.S), o...)
-				}
-			default:
-				panic("harness: bad string test " + t.T)
-			}
-		}
-		for i, p := range n.PTs {
-			s.PostTransform(e.postTransform(n, i, p))
-		}
-		return s
+		return buildStr(e, n, z.String(e.coercerOpts(n)...))
 	case "int":
 		if n.W == "64" {
 			return buildNum(e, n, z.Int64(e.coercerOpts(n)...), func(v Val) int64 { return v.I }, func(t TestSpec) int64 { return t.N })
